@@ -12,6 +12,9 @@
 //! items of every add and of every module. Libraries with more than one
 //! injected defect are left out (counted). Tier bounds: `bounds()`.
 //! One more unit runs the `library!` macro forms (`macros.rs`).
+//! `extra.rs`: hand-written histories (type names like built-in types, use in
+//! an impl block, use through a use); `ctx.rs`: context types; after every
+//! add that returns Err (histories of <= 3 items) the runtime must be as before.
 //! Further units (`impls.rs`) let the target type of an impl block range over
 //! primitives, `()`, Val types and the built-in compound constructors.
 //!
@@ -632,6 +635,7 @@ impl Check for C18 {
         Meta {
             rule: "states = literal libraries (item tree + names + distribution over adds), all distinct by construction; every one is executed in every permutation of the items of each add and of each module (transitions). Libraries with more than one independent defect are left out (counters.libraries_with_more_than_one_defect_left_out). A library is non-trivial when it has at least two items and an injected defect, a module, or an item that refers to another item of the library (a use of a library item, a signature / impl / constant of a type the library registers). An impl-target configuration (impls.rs) is non-trivial when its target is a compound type or its block has an item".into(),
             assumptions: vec![
+                "an add that returned Err must leave the runtime as it was: checked (positive probes of the state before, declared paths of the rejected items) for histories of at most 3 items".into(),
                 "valid names of the pool are interchangeable: the equality pattern of the names is enumerated exhaustively, the concrete names a/b/T/é are rotated over the patterns".into(),
                 "use paths are absolute; a `use` inside a module is expected not to bind anything in the root (whether it is visible as `module.name` is left open)".into(),
                 "the state after a failed add is not specified; histories stop at the first Err".into(),
@@ -651,6 +655,10 @@ impl Check for C18 {
                 "skeletons": plan(cfg.tier).skels.len(),
                 "library_macro_forms": macros::forms().len(),
                 "impl_target_types": impls::targets().len(),
+                "hand_written_base_libraries": extra::bases().len(),
+                "hand_written_families": "type named like every built-in type of the root (16 primitives, List, Option, Result, Verdict) or a fresh name x root / module x with / without impl block, next to a function mentioning the type; a use inside an impl block (6 libraries); a use path through a name another use brought in (4 libraries); every permutation of the top-level items x every distribution over 1-2 adds",
+                "rollback_oracle_max_items": ROLLBACK_ITEMS,
+                "context_type_configurations": ctx::n_configs(),
                 "impl_target_family": "target type of an impl block: 16 primitives, (), Val<A>, Val<B>, and Option/List/Result<_,bool>/Result<bool,_>/Verdict<_,bool>/Verdict<bool,_> over {u32,bool,String,Val<A>,Val<B>} and (nested once) over Option/List/Result/Verdict of {u32,Val<A>,Val<B>}; block item: none / method / static function / constant; block at the root / inside a module; the Val type it mentions: unregistered / same add before / same add after / earlier add / later add",
             }),
             states_are: "literal libraries (item tree, names, distribution over 1-2 adds)".into(),
